@@ -87,6 +87,9 @@ fn main() {
         "C15" => dispatch::<grid::C15>(cmd, &args),
         "C16" => dispatch::<grid::C16>(cmd, &args),
         "C17" => dispatch::<grid::C17>(cmd, &args),
+        "C18" => dispatch::<serdeprops::C18>(cmd, &args),
+        "C19" => dispatch::<serdeprops::C19>(cmd, &args),
+        "C20" => dispatch::<ctor::C20>(cmd, &args),
         other => {
             eprintln!("unknown property {}", other);
             2
